@@ -29,6 +29,7 @@ import (
 	"runtime/debug"
 	"sort"
 	"strings"
+	"syscall"
 	"time"
 
 	"github.com/flant/shell-operator/pkg/hook/config"
@@ -59,7 +60,18 @@ type Result struct {
 	Input   string         `json:"input_b64,omitempty"`
 }
 
-const loadTimeout = 4 * time.Second
+const (
+	hangCPU  = 3 * time.Second
+	hangWall = 150 * time.Second
+)
+
+func cpuTime() time.Duration {
+	var ru syscall.Rusage
+	if err := syscall.Getrusage(syscall.RUSAGE_SELF, &ru); err != nil {
+		return 0
+	}
+	return time.Duration(ru.Utime.Nano() + ru.Stime.Nano())
+}
 
 var hangFile string
 
@@ -111,20 +123,34 @@ func load(idx int, data []byte) loadResult {
 			r.cfg = c
 		}
 	}()
-	select {
-	case r := <-ch:
-		return r
-	case <-time.After(loadTimeout):
-		// the input goes to a side file (stderr is truncated by the supervisor)
-		if hangFile != "" {
-			if f, err := os.OpenFile(hangFile, os.O_APPEND|os.O_WRONLY|os.O_CREATE, 0o644); err == nil {
-				b, _ := json.Marshal(map[string]interface{}{"case": idx, "input_b64": base64.StdEncoding.EncodeToString(data)})
-				f.Write(append(b, '\n'))
-				f.Close()
+	// A load needs about a millisecond of CPU. It is called a hang when this process has burnt hangCPU of CPU time
+	// since the call started (a runaway loop) or, as a fallback, when nothing came back after hangWall (blocked).
+	// Wall-clock time alone is not used: on an oversubscribed machine a healthy call can be starved for seconds.
+	start := time.Now()
+	cpu0 := cpuTime()
+	tick := time.NewTicker(50 * time.Millisecond)
+	defer tick.Stop()
+	for {
+		select {
+		case r := <-ch:
+			return r
+		case <-tick.C:
+			burnt := cpuTime() - cpu0
+			if burnt < hangCPU && time.Since(start) < hangWall {
+				continue
 			}
+			// the input goes to a side file (stderr is truncated by the supervisor)
+			if hangFile != "" {
+				if f, err := os.OpenFile(hangFile, os.O_APPEND|os.O_WRONLY|os.O_CREATE, 0o644); err == nil {
+					b, _ := json.Marshal(map[string]interface{}{"case": idx, "input_b64": base64.StdEncoding.EncodeToString(data)})
+					f.Write(append(b, '\n'))
+					f.Close()
+				}
+			}
+			fmt.Fprintf(os.Stderr, "HANG case=%d LoadAndValidate did not return: %s of CPU time burnt, %s elapsed\n", idx,
+				burnt.Round(time.Millisecond), time.Since(start).Round(time.Millisecond))
+			os.Exit(3)
 		}
-		fmt.Fprintf(os.Stderr, "HANG case=%d LoadAndValidate did not return within %s\n", idx, loadTimeout)
-		os.Exit(3)
 	}
 	return loadResult{}
 }
@@ -621,7 +647,7 @@ func main() {
 	}
 	if !supervise.IsChild() {
 		os.Remove(hangFile)
-		err := supervise.Run(total, *out, 20*time.Second, func(idx int, why string) interface{} {
+		err := supervise.Run(total, *out, 200*time.Second, func(idx int, why string) interface{} {
 			r := Result{Case: idx, OK: false, Sig: "C10/crash", Detail: why}
 			if strings.Contains(why, "HANG case=") {
 				r.Sig = "C10/hang"
